@@ -58,15 +58,24 @@ def parse_head(data):
 def plain_head(data, consumed):
     """only printable ASCII and CRLF line ends, header names made of letters/digits/'-': the heads for which 'valid => accepted' is claimed"""
     head = data[:consumed]
-    if any(not (0x20 <= b <= 0x7e or b in (13, 10)) for b in head):
-        return False
     rest = head.replace(b'\r\n', b'')
     if b'\n' in rest or b'\r' in rest:
         return False
-    for l in head.split(b'\r\n')[1:]:
+    lines = head.split(b'\r\n')
+    if any(not (0x20 <= b <= 0x7e) for b in lines[0]):
+        return False
+    decisive = (b'upgrade', b'connection', b'sec-websocket-key', b'sec-websocket-version', b'sec-websocket-protocol', b'host')
+    for l in lines[1:]:
         nm = l.split(b':', 1)[0]
-        if l and (not nm or b':' not in l or not all(chr(c).isalnum() or c == 0x2d for c in nm)):
+        if l and (not nm or b':' not in l or not all(48 <= c <= 57 or 65 <= c <= 90 or 97 <= c <= 122 or c == 0x2d for c in nm)):
             return False
+        if l:
+            val = l.split(b':', 1)[1]
+            # obs-text (bytes >= 0x80) is legal in a field value (RFC 7230 3.2.6; httparse and http::HeaderValue take it):
+            # allowed here in the headers the handshake does not interpret
+            okb = (lambda b: 0x20 <= b <= 0x7e or b >= 0x80) if nm.lower() not in decisive else (lambda b: 0x20 <= b <= 0x7e)
+            if any(not okb(b) for b in val):
+                return False
     return True
 
 def values(hs, name):
@@ -309,7 +318,7 @@ def mon_c16(case_line, trace, mline):
         tail = inbound[rcons:]
         later = b''.join(bytes.fromhex(e[2:]) for o in ops for e in o.events if e.startswith('R:') and e != 'R:eof' and not e.startswith('R:e:'))
         frames, _ = ws.parse_frames(tail + later)
-        reads = [o for o in ops if o.res.startswith('ok:') and o.res[3] in 'TBP']
+        reads = [o for o in ops if o.res != 'err:io:wb' and (o.res.startswith('ok:') and o.res[3] in 'TBP' or o.res.startswith('err:') or o.res.startswith('panic'))]
         k = 0
         for fr in frames:
             if not fr.complete or fr.opcode not in (1, 2) or not fr.fin or fr.masked:
